@@ -81,7 +81,7 @@ func (StoreCohScenario) GenCase(r *rand.Rand, prop string) interface{} {
 	c := &CohCase{}
 	c.Backend = pick(r, "mock", "badger")
 	c.Coll = chance(r, 50)
-	c.Trans = pick(r, "none", "id", "custom")
+	c.Trans = pick(r, "none", "id", "custom", "hide")
 	c.Default = chance(r, 40)
 	c.Workers = pick(r, 1, 2, 4)
 	for _, p := range append(append([]string{}, storePoints...), "conn.Publish", "event", "rawEvent", "worker.beforeCb", "handleRequest", "runWith.beforeLock", "auto.lock") {
@@ -215,6 +215,26 @@ func customTransform(coll bool) func(id string, v interface{}) (interface{}, err
 	}
 }
 
+// hiddenValue tells which stored values the "hide" transform refuses to
+// serve (drafts): models whose property "b" is a string, a boolean or null,
+// collections that start with "c".
+func hiddenValue(v interface{}) bool {
+	switch x := v.(type) {
+	case []string:
+		return len(x) > 0 && x[0] == "c"
+	case map[string]interface{}:
+		b, ok := x["b"]
+		if !ok {
+			return false
+		}
+		switch b.(type) {
+		case string, bool, nil:
+			return true
+		}
+	}
+	return false
+}
+
 func (cr *cohRun) decodeVal(raw json.RawMessage) interface{} {
 	if cr.c.Coll {
 		var l []string
@@ -306,6 +326,16 @@ func (StoreCohScenario) Execute(sim *sched.Sim, ci interface{}, prop string, rac
 		sh.Transformer = store.IDTransformer("id", nil)
 	case "custom":
 		sh.Transformer = store.IDTransformer("id", customTransform(c.Coll))
+	case "hide":
+		// some stored values are not served at all
+		ct := customTransform(c.Coll)
+		sh.Transformer = store.IDTransformer("id", func(id string, v interface{}) (interface{}, error) {
+			if hiddenValue(v) {
+				sim.Probe("coh.hidden")
+				return nil, res.ErrNotFound
+			}
+			return ct(id, v)
+		})
 	}
 	if c.Default {
 		if c.Coll {
